@@ -100,15 +100,36 @@ theorem readAll_true (cleaned : Bool) (slabs : List (Slab α)) :
     unfold readAll
     rw [readFile_true, ih]
 
+theorem readAll_none_ok (cleaned : Bool) (slabs : List (Slab α))
+    (hc : cleaned = true → ∀ s ∈ slabs, s.clean.length = s.halos.length) :
+    ∃ kept, readAll cleaned slabs (List.replicate slabs.length none) = .ok kept := by
+  induction slabs with
+  | nil => exact ⟨[], rfl⟩
+  | cons s ss ih =>
+    obtain ⟨ks, hks⟩ := ih (fun h s' hs' => hc h s' (by simp [hs']))
+    have hrows : ∃ rows, rowsOf cleaned s = .ok rows := by
+      unfold rowsOf
+      cases cleaned with
+      | false => exact ⟨_, rfl⟩
+      | true => simp [hc rfl s (by simp)]
+    obtain ⟨rows, hr⟩ := hrows
+    refine ⟨rows :: ks, ?_⟩
+    simp only [List.length_cons, List.replicate_succ]
+    unfold readAll
+    simp only [readFile, hr, hks]
+
 /-- **load_filter_none.**  Loading without a filter function is loading with the all-true mask on every
-superslab (no hypothesis needed: both sides fault together, too). -/
-theorem load_filter_none (o : Opts) (slabs : List (Slab α)) :
+superslab (for a catalog whose cleaning tables match their halo tables; nothing else is assumed, so the two
+loads also fault together downstream). -/
+theorem load_filter_none (o : Opts) (slabs : List (Slab α))
+    (hc : o.cleaned = true → ∀ s ∈ slabs, s.clean.length = s.halos.length) :
     load { o with masks := some (allMasks true slabs) } slabs = load { o with masks := none } slabs := by
+  obtain ⟨kept, hk⟩ := readAll_none_ok o.cleaned slabs hc
+  have hk' := (readAll_true o.cleaned slabs).trans hk
   unfold load loadW
   simp only [masksFor, allMasks, List.length_map, ne_eq, not_true_eq_false, if_false]
-  have := readAll_true o.cleaned slabs
-  simp only [allMasks] at this
-  rw [this]
+  simp only [allMasks] at hk'
+  rw [readTable_eq _ _ _ kept hk', readTable_eq _ _ _ kept hk]
   rfl
 
 theorem readAll_false (cleaned : Bool) (slabs : List (Slab α))
@@ -164,7 +185,7 @@ theorem load_filter_nothing (o : Opts) (slabs : List (Slab α))
     rw [List.zip_map_right] at hp
     obtain ⟨q, _, rfl⟩ := List.mem_map.mp hp
     simp
-  obtain ⟨mks, kept, h1, h2, _, h4⟩ := load_eq o' slabs hwf
+  obtain ⟨mks, kept, h1, h2, _, h4⟩ := load_eq o' slabs ((wf_iff _ _).mp hwf)
   rw [hmask] at h1
   cases h1
   have h2' : readAll o.cleaned slabs ((allMasks false slabs).map some) = .ok kept := h2
@@ -292,10 +313,10 @@ masks) is the `glue` of the two loads: rows and per-file counts appended, the in
 and B totals, the table `A₁ ++ A₂ ++ B₁ ++ B₂`.  By induction this is "a load of any list of files is the
 concatenation, in list order, of the single-file loads". -/
 theorem load_append (o : Opts) (s1 s2 : List (Slab α)) (m1 m2 : List (List Bool))
-    (h1 : wf { o with masks := some m1 } s1 = true) (h2 : wf { o with masks := some m2 } s2 = true) :
+    (h1 : wfE { o with masks := some m1 } s1) (h2 : wfE { o with masks := some m2 } s2) :
     ∃ r1 r2, load { o with masks := some m1 } s1 = .ok r1 ∧ load { o with masks := some m2 } s2 = .ok r2 ∧
       load { o with masks := some (m1 ++ m2) } (s1 ++ s2) = .ok (glue r1 r2) ∧
-      wf { o with masks := some (m1 ++ m2) } (s1 ++ s2) = true := by
+      wfE { o with masks := some (m1 ++ m2) } (s1 ++ s2) := by
   obtain ⟨mk1, k1, hm1, hr1, hk1, hl1⟩ := load_eq _ s1 h1
   obtain ⟨mk2, k2, hm2, hr2, hk2, hl2⟩ := load_eq _ s2 h2
   have e1 : mk1 = m1.map some ∧ m1.length = s1.length := by
@@ -336,31 +357,59 @@ theorem load_append (o : Opts) (s1 s2 : List (Slab α)) (m1 m2 : List (List Bool
     simp only [List.all_eq_true]
     intro p hp r hr X hX
     exact hk12.2 p hp r hr X hX
-  obtain ⟨mk, k, hm, hr, _, hl⟩ := load_eq _ (s1 ++ s2) hwf
+  obtain ⟨mk, k, hm, hr, _, hl⟩ := load_eq _ (s1 ++ s2) ((wf_iff _ _).mp hwf)
   have hm' : masksFor (some (m1 ++ m2)) (s1 ++ s2).length = .ok mk := hm
   rw [hmask] at hm'
   cases hm'
   have hr' : readAll o.cleaned (s1 ++ s2) ((m1 ++ m2).map some) = .ok k := hr
   rw [hread] at hr'
   cases hr'
-  refine ⟨_, _, hl1, hl2, ?_, hwf⟩
+  refine ⟨_, _, hl1, hl2, ?_, (wf_iff _ _).mp hwf⟩
   rw [hl, specRes_masks, specRes_masks, specRes_masks]
   congr 1
   exact specRes_append o s1 s2 k1 k2 hk1 hk2
+
+theorem mem_zip_of_mem_left {β γ} : ∀ (l1 : List β) (l2 : List γ) (a : β),
+    l1.length = l2.length → a ∈ l1 → ∃ b, (a, b) ∈ l1.zip l2 := by
+  intro l1
+  induction l1 with
+  | nil => intro l2 a _ ha; cases ha
+  | cons x l1 ih =>
+    intro l2 a hl ha
+    cases l2 with
+    | nil => simp at hl
+    | cons y l2 =>
+      rcases List.mem_cons.mp ha with rfl | ha'
+      · exact ⟨y, by simp⟩
+      · obtain ⟨b, hb⟩ := ih l2 a (by simpa using hl) ha'
+        exact ⟨b, by simp [hb]⟩
 
 theorem allMasks_append (b : Bool) (s1 s2 : List (Slab α)) :
     allMasks b (s1 ++ s2) = allMasks b s1 ++ allMasks b s2 := by simp [allMasks]
 
 /-- `load_append` without a filter function -/
 theorem load_append_nofilter (o : Opts) (s1 s2 : List (Slab α))
-    (h1 : wf { o with masks := some (allMasks true s1) } s1 = true)
-    (h2 : wf { o with masks := some (allMasks true s2) } s2 = true) :
+    (h1 : wfE { o with masks := some (allMasks true s1) } s1)
+    (h2 : wfE { o with masks := some (allMasks true s2) } s2) :
     ∃ r1 r2, load { o with masks := none } s1 = .ok r1 ∧ load { o with masks := none } s2 = .ok r2 ∧
       load { o with masks := none } (s1 ++ s2) = .ok (glue r1 r2) := by
   obtain ⟨r1, r2, e1, e2, e3, _⟩ := load_append o s1 s2 _ _ h1 h2
   rw [← allMasks_append] at e3
-  exact ⟨r1, r2, (load_filter_none o s1).symm.trans e1, (load_filter_none o s2).symm.trans e2,
-    (load_filter_none o (s1 ++ s2)).symm.trans e3⟩
+  have c1 : o.cleaned = true → ∀ s ∈ s1, s.clean.length = s.halos.length := by
+    intro hc s hs
+    obtain ⟨m, hm⟩ := mem_zip_of_mem_left s1 (allMasks true s1) s (by simp [allMasks]) hs
+    exact (h1.2 (s, m) hm).1 hc
+  have c2 : o.cleaned = true → ∀ s ∈ s2, s.clean.length = s.halos.length := by
+    intro hc s hs
+    obtain ⟨m, hm⟩ := mem_zip_of_mem_left s2 (allMasks true s2) s (by simp [allMasks]) hs
+    exact (h2.2 (s, m) hm).1 hc
+  have c12 : o.cleaned = true → ∀ s ∈ s1 ++ s2, s.clean.length = s.halos.length := by
+    intro hc s hs
+    rcases List.mem_append.mp hs with hs | hs
+    · exact c1 hc s hs
+    · exact c2 hc s hs
+  exact ⟨r1, r2, (load_filter_none o s1 c1).symm.trans e1, (load_filter_none o s2 c2).symm.trans e2,
+    (load_filter_none o (s1 ++ s2) c12).symm.trans e3⟩
 
 /-! ### general masks -/
 
@@ -651,11 +700,11 @@ results yields exactly `applyMask` of the unfiltered load (all-true masks, equiv
 `load_filter_none`): the kept rows, per-file kept counts, and their particle slices re-indexed
 contiguously, A before B.  `load_filter_nothing` is the all-false instance in closed form. -/
 theorem load_filter (o : Opts) (slabs : List (Slab α)) (ms : List (List Bool))
-    (hall : wf { o with masks := some (allMasks true slabs) } slabs = true)
+    (hall : wfE { o with masks := some (allMasks true slabs) } slabs)
     (hl : ms.length = slabs.length) (hshape : ∀ p ∈ ms.zip slabs, p.1.length = p.2.halos.length) :
     ∃ rAll, load { o with masks := some (allMasks true slabs) } slabs = .ok rAll ∧
       load { o with masks := some ms } slabs = .ok (applyMask ms.flatten rAll) ∧
-      wf { o with masks := some ms } slabs = true := by
+      wfE { o with masks := some ms } slabs := by
   obtain ⟨mk, kAll, hm, hr, hk, hload⟩ := load_eq _ slabs hall
   have hm' : mk = (allMasks true slabs).map some := by
     simp only [masksFor, allMasks, List.length_map, ne_eq, not_true_eq_false, if_false] at hm
@@ -674,14 +723,14 @@ theorem load_filter (o : Opts) (slabs : List (Slab α)) (ms : List (List Bool))
     simp only [List.all_eq_true]
     intro p hp r hr X hX
     exact hkM.2 p hp r hr X hX
-  obtain ⟨mk', kM, hm2, hr2, _, hload2⟩ := load_eq _ slabs hwf
+  obtain ⟨mk', kM, hm2, hr2, _, hload2⟩ := load_eq _ slabs ((wf_iff _ _).mp hwf)
   have hm2' : masksFor (some ms) slabs.length = .ok mk' := hm2
   rw [hmask] at hm2'
   cases hm2'
   have hr2' : readAll o.cleaned slabs (ms.map some) = .ok kM := hr2
   rw [r1] at hr2'
   cases hr2'
-  refine ⟨_, hload, ?_, hwf⟩
+  refine ⟨_, hload, ?_, (wf_iff _ _).mp hwf⟩
   rw [hload2, specRes_masks, specRes_masks]
   congr 1
   exact specRes_masked o slabs kAll ms hk r4 r3 r2
@@ -787,12 +836,12 @@ theorem paths_mixed_first (parse : σ → Option Nat) (ps : List (PathIn σ)) (p
 /-! ### non-vacuity of the load theorems: C01's example catalog (two superslabs, gaps, a zero-particle halo, a
 cleaned-away halo, merged ranges) -/
 
-example : wf { exOpts with masks := some (allMasks true exSlabs) } exSlabs = true := by decide
+example : wfE { exOpts with masks := some (allMasks true exSlabs) } exSlabs := (wf_iff _ _).mp (by decide)
 example : ([[true, true, false], [true]] : List (List Bool)).length = exSlabs.length := by decide
 example : ∀ p ∈ ([[true, true, false], [true]] : List (List Bool)).zip exSlabs, p.1.length = p.2.halos.length := by
   decide
-example : wf { exOpts with masks := some [[true, false, true]] } (exSlabs.take 1) = true := by decide
-example : wf { exOpts with masks := some [[true]] } (exSlabs.drop 1) = true := by decide
+example : wfE { exOpts with masks := some [[true, false, true]] } (exSlabs.take 1) := (wf_iff _ _).mp (by decide)
+example : wfE { exOpts with masks := some [[true]] } (exSlabs.drop 1) := (wf_iff _ _).mp (by decide)
 -- the masked unfiltered load, computed: row 2 of superslab 0 dropped, the rest re-indexed contiguously
 example : ((load { exOpts with masks := some (allMasks true exSlabs) } exSlabs).toOption.map
     (fun r => (applyMask [true, true, false, true] r).sub)) =
